@@ -22,6 +22,13 @@ fn main() {
             let spec = vx_core::plans::plan(prop, tier).expect("plan");
             let n: usize = spec.jobs.iter().map(|j| j.programs.len()).sum();
             println!("{} jobs, {} program x config items; {}", spec.jobs.len(), n, spec.rule_text);
+            let mut fam: std::collections::BTreeMap<String, usize> = Default::default();
+            for j in &spec.jobs {
+                for p in &j.programs {
+                    *fam.entry(p.name.split(['#', '/']).next().unwrap_or("").to_string()).or_default() += 1;
+                }
+            }
+            println!("families: {fam:?}");
             if let Some(k) = args.get(4).and_then(|s| s.parse::<usize>().ok()) {
                 for j in spec.jobs.iter().step_by((spec.jobs.len() / k).max(1)) {
                     println!("  {} {}", j.programs[j.programs.len() / 2].name, j.programs[j.programs.len() / 2].short());
